@@ -122,7 +122,7 @@ func j_countReturns(n ast.Node) int {
 }
 
 func genJoinState(repo string) (string, error) {
-	out := j_joinHeader("JoinState", "debian/releases.go", "debian/updater.go", "debian/parser.go", "ubuntu/updaterset.go", "alpine/release.go", "alpine/updater.go", "suse/factory.go")
+	out := j_joinHeader("JoinState", "debian/releases.go", "debian/updater.go", "debian/parser.go", "ubuntu/updaterset.go", "alpine/release.go", "alpine/updater.go", "suse/factory.go", "updater/osv/osv.go")
 	for _, pkg := range []string{"debian", "ubuntu", "alpine", "suse"} {
 		sc, err := j_loadScope(repo, pkg, false)
 		if err != nil {
@@ -313,6 +313,83 @@ func genJoinState(repo string) (string, error) {
 			out += "def incompleteReturnsBeforeStateWrites : Bool := " + j_leanBool(guard) + "\n"
 		}
 		out += "end " + pkg + "\n\n"
+	}
+	// --- updater/osv: Factory.UpdaterSet and its validator
+	{
+		sc, err := j_loadScope(repo, "updater/osv", false)
+		if err != nil {
+			return "", err
+		}
+		fd, err := sc.fn("Factory.UpdaterSet")
+		if err != nil {
+			return "", err
+		}
+		recv := ""
+		if fd.Recv != nil && len(fd.Recv.List) == 1 && len(fd.Recv.List[0].Names) == 1 {
+			recv = fd.Recv.List[0].Names[0].Name
+		}
+		isRecvField := func(e ast.Expr, field string) bool {
+			se, ok := e.(*ast.SelectorExpr)
+			if !ok || se.Sel.Name != field {
+				return false
+			}
+			id, ok := se.X.(*ast.Ident)
+			return ok && id.Name == recv
+		}
+		notModCur, etagGuarded := false, false
+		etagWrites, curWrites := 0, 0
+		ast.Inspect(fd.Body, func(n ast.Node) bool {
+			switch x := n.(type) {
+			case *ast.AssignStmt:
+				for _, l := range x.Lhs {
+					if isRecvField(l, "etag") {
+						etagWrites++
+					}
+					if isRecvField(l, "cur") {
+						curWrites++
+					}
+				}
+			case *ast.CaseClause:
+				for _, e := range x.List {
+					if se, ok := e.(*ast.SelectorExpr); ok && se.Sel.Name == "StatusNotModified" {
+						if len(x.Body) == 1 {
+							if as, ok := x.Body[0].(*ast.AssignStmt); ok && len(as.Lhs) == 1 && len(as.Rhs) == 1 {
+								if id, ok := as.Lhs[0].(*ast.Ident); ok && id.Name == "s" && isRecvField(as.Rhs[0], "cur") {
+									notModCur = true
+								}
+							}
+						}
+					}
+				}
+			case *ast.IfStmt:
+				be, ok := x.Cond.(*ast.BinaryExpr)
+				if !ok || be.Op != token.EQL || !j_isNil(be.Y) {
+					return true
+				}
+				if id, ok := be.X.(*ast.Ident); !ok || id.Name != "err" {
+					return true
+				}
+				e, c := false, false
+				for _, st := range x.Body.List {
+					if as, ok := st.(*ast.AssignStmt); ok && len(as.Lhs) == 1 && len(as.Rhs) == 1 {
+						if isRecvField(as.Lhs[0], "etag") {
+							e = true
+						}
+						if id, ok := as.Rhs[0].(*ast.Ident); ok && id.Name == "s" && isRecvField(as.Lhs[0], "cur") {
+							c = true
+						}
+					}
+				}
+				if e && c {
+					etagGuarded = true
+				}
+			}
+			return true
+		})
+		out += "namespace osv\n"
+		out += "/-- `case http.StatusNotModified: s = f.cur` -/\ndef notModifiedHandsOutCur : Bool := " + j_leanBool(notModCur) + "\n"
+		out += "/-- etag and cur are assigned once each, together, under `if err == nil` -/\ndef etagStoredWithCompleteSet : Bool := " + j_leanBool(etagGuarded && etagWrites == 1 && curWrites == 1) + "\n"
+		out += "end osv\n\n"
 	}
 	out += "end ClairModel.Gen.JoinState\n"
 	return strings.ReplaceAll(out, "\t", " "), nil
